@@ -82,6 +82,7 @@ theorem build_edges (m : Machine) (ini : StateDef) (cur : Option StateDef) :
 def currentOf (m : Machine) : Subject → Option StateDef
   | .cls => none
   | .inst v => lookupValue m.states v
+  | .unset => none
 
 theorem getGraph_ok {m : Machine} {sub : Subject} {g : Graph} (h : getGraph m sub = .ok g) :
     ∃ ini, initialState m = some ini ∧ g = build m ini (currentOf m sub) ∧
@@ -105,6 +106,9 @@ theorem getGraph_ok {m : Machine} {sub : Subject} {g : Graph} (h : getGraph m su
         intro v' hv'
         cases hv'
         exact ⟨c, hc⟩
+    | unset =>
+      simp only [Except.ok.injEq] at h
+      exact ⟨by simp [currentOf, ← h], by intro v hv; cases hv⟩
 
 theorem lookupValue_some {ss : List StateDef} {v : String} {c : StateDef}
     (h : lookupValue ss v = some c) : c ∈ ss ∧ c.value = v := by
